@@ -59,7 +59,7 @@ def run(c):
     c.assumptions += ['complex dtype is not generated', 'integer and boolean arguments, axis lengths and loop lengths are sampled, real arguments are symbolic',
                       'parametricity of the Lean evaluator in its scalar carrier (equal normal forms => equal values for all real arguments) relies on Props/Poly soundness of the polynomial operations; the evaluator itself is executed, not kernel-reduced',
                       'a symbolic "differ" answer is never a verdict by itself: it falls back to exact comparison at the sampled point']
-    broken = c.build_and_audit(extra_props=['Poly'])
+    broken = c.build_and_audit(extra_props=['Poly', 'C01Driver'])
     N = 120 if c.tier == 'quick' else 2500
     maxdepth = 4 if c.tier == 'quick' else 6
 
@@ -158,5 +158,8 @@ def run(c):
     c.extra['decided_exactly_at_sample_point_only'] = nconc
     c.obligation('corr:spec-eval', nspec_bad == 0 and nspec > 0, 'correspondence', '%d trees evaluated identically by Lean spec and real code' % nspec)
     c.obligation('valid:simplified-equals-original', not any('simplify' in v[2] for v in c.violations), 'validation', '%d symbolic + %d at sample point' % (nsym, nconc))
+    # ---- (M) the fixed-point driver itself (deep_replace_property) vs its Lean model, + memoisation consequences on real trees
+    from . import c01driver
+    c01driver.stream(c, 300 if c.tier == 'quick' else 4000)
     for b in broken:
         c.broken_no_input('proof', b, dict(detail=b))
